@@ -11,10 +11,10 @@ namespace Avo.Determinism
 * `AddInterferenceSet`  — edge *list* order: `allocLoop_perm` (via `foldl_perm`: `update` treats the edges as a multiset)
 * `mostrestricted`      — `mostRestricted_perm`
 * `NewAllocator`        — `sortRegs_perm`
-* `RequiredISAExtensions` — followed by `sort.Strings` over a set (measured)
-* `AllocateRegisters` (×2) — per-kind allocators are independent, `Merge` of disjoint maps (measured)
+* `RequiredISAExtensions` — `requiredISA_perm` (sorted list of a set; model compared with the pass on every compiled function)
+* `AllocateRegisters` (×2), `Allocation.Merge` — `allocate_kinds_perm` (per-kind allocations have keys of their own kind; the merged lookup is order independent)
 * `MaskSet.Clone/DifferenceUpdate/Equals/OfKind/Update` — `update_perm`, `update_flag_perm`, `difference_perm`, `ofKind_perm`, `get_perm`
-* `Allocation.Merge`    — merging maps with disjoint keys (measured) -/
+* `Allocation.Merge`    — see `allocate_kinds_perm` -/
 theorem mapRanges_expected : Avo.Gen.mapRanges =
     [("pass/alloc.go", "*Allocator.AddInterferenceSet", "s"),
      ("pass/alloc.go", "*Allocator.mostrestricted", "a.possible"),
